@@ -154,19 +154,21 @@ func (rn *runner) runGroupCase(c *Case) {
 		}
 		switch op.Op {
 		case "router":
+			cfgLogged := cfgJSON(cfg)
 			res, _ := guard(func() {
 				gi.routers[op.Inst] = mux.NewRouter[*H](cfg.name(), gi.e.call, &H{kind: "404"}, b405, bopt, gi.e.routerOpts(cfg)...)
 			})
-			rn.emit(obj("ev", js("router"), "inst", js(op.Inst), "cfg", cfgJSON(cfg), "res", js(res)))
+			rn.emit(obj("ev", js("router"), "inst", js(op.Inst), "cfg", cfgLogged, "res", js(res)))
 		case "gadd":
 			res, _ := guard(func() { gi.g.Add(buildMatcher(&mx), gi.routers[op.Inst]) })
 			rn.emit(obj("ev", js("gadd"), "inst", js(op.Inst), "m", mraw, "res", js(res), "wraps", wrapsJSON(gi.e.wraps[w0:])))
 		case "gnew":
+			cfgLogged := cfgJSON(cfg)
 			res, _ := guard(func() {
 				r := gi.g.New(op.Inst, buildMatcher(&mx), gi.e.routerOpts(cfg)...)
 				gi.routers[op.Inst] = r
 			})
-			rn.emit(obj("ev", js("gnew"), "inst", js(op.Inst), "m", mraw, "cfg", cfgJSON(cfg), "res", js(res), "wraps", wrapsJSON(gi.e.wraps[w0:])))
+			rn.emit(obj("ev", js("gnew"), "inst", js(op.Inst), "m", mraw, "cfg", cfgLogged, "res", js(res), "wraps", wrapsJSON(gi.e.wraps[w0:])))
 		case "gremove":
 			res, _ := guard(func() { gi.g.Remove(op.Inst) })
 			rn.emit(obj("ev", js("gremove"), "inst", js(op.Inst), "res", js(res)))
